@@ -1,5 +1,14 @@
 import FranzVerif.Model.Producer
-/-! Helper definitions (history-level observables) and lemmas for the producer monitor theorems. -/
+/-! Helper definitions (history-level observables) and lemmas for the producer monitor theorems.
+
+Layout of the proof:
+* this file: the observables, `find`/`upd` lemmas, how each observable changes on `h ++ [ev]`, and the
+  per-record invariant `RecInv h id r` (what the monitor's record for `id` says about the history `h`)
+  with its frame lemma (an event about another record does not disturb it);
+* `Proof/ProducerInv.lean`: the global invariant `Inv c h s` and its preservation by every accepted
+  event (one lemma per event kind), `Inv.run`, `inv_of_run`, `run_append`, `run_split`;
+* `Proof/ProducerFacts.lean`: facts read off the invariant (quiescence, promiseRanIds, pending Flush);
+* `Proof/ProducerFull.lean`: the history-level meaning of the `sawFull` flag. -/
 namespace Proof.Producer
 open Model.Producer
 
@@ -30,5 +39,147 @@ def sawFullDuringCall (c : Cfg) (id : Id) (h : List Ev) : Bool :=
   match run c {} h with
   | some s => match find s.recs id with | some r => r.sawFull | none => false
   | none => false
+
+/-- Records admitted and not yet released (history level); `Props.C03.inBuffer` unfolds to this. -/
+def inBuf (h : List Ev) : List Id :=
+  (admittedIds h).filter (fun id => !(releasedIds h).contains id)
+
+/-! ### `find` / `upd` -/
+
+theorem find_cons (r : Rec) (rs : List Rec) (id : Id) :
+    find (r :: rs) id = if r.id = id then some r else find rs id := by
+  simp only [find, List.find?_cons]
+  by_cases h : r.id = id
+  · simp [h]
+  · have : (r.id == id) = false := by simpa using h
+    simp [this, h]
+
+theorem find_some {rs : List Rec} {id : Id} {r : Rec} (h : find rs id = some r) : r ∈ rs ∧ r.id = id := by
+  unfold find at h
+  exact ⟨List.mem_of_find?_eq_some h, by simpa using List.find?_some h⟩
+
+theorem find_map (g : Rec → Rec) (hg : ∀ r, (g r).id = r.id) (rs : List Rec) (id : Id) :
+    find (rs.map g) id = (find rs id).map g := by
+  induction rs with
+  | nil => rfl
+  | cons r rs ih =>
+    simp only [List.map_cons, find_cons, hg]
+    by_cases h : r.id = id <;> simp [h, ih]
+
+theorem find_upd (f : Rec → Rec) (hf : ∀ r, (f r).id = r.id) (rs : List Rec) (i id : Id) :
+    find (upd rs i f) id = if id = i then (find rs id).map f else find rs id := by
+  unfold upd
+  rw [find_map _ (by intro r; by_cases h : (r.id == i) = true <;> simp [h, hf])]
+  cases hfd : find rs id with
+  | none => simp
+  | some r =>
+    have := (find_some hfd).2
+    by_cases h : id = i <;> simp [h, this]
+
+/-! ### observables on `h ++ [ev]` -/
+
+def promEv (id : Id) : Ev → Option Err
+  | .promise i e => if i = id then some e else none | _ => none
+def hookUEv (id : Id) : Ev → Option Err
+  | .hookU i e => if i = id then some e else none | _ => none
+def hookBEv (id : Id) : Ev → Option Unit
+  | .hookB i => if i = id then some () else none | _ => none
+def callEv (id : Id) : Ev → Bool
+  | .call i _ _ => i == id | _ => false
+def kindEv (id : Id) : Ev → Option Kind
+  | .call i k _ => if i = id then some k else none | _ => none
+def sizeEv (id : Id) : Ev → Option Nat
+  | .call i _ sz => if i = id then some sz else none | _ => none
+def admitEv : Ev → Option Id
+  | .admit i _ _ _ => some i | _ => none
+def releaseEv : Ev → Option Id
+  | .release i _ _ => some i | _ => none
+/-- the record an event is about -/
+def evId : Ev → Option Id
+  | .call i _ _ | .hookB i | .admit i _ _ _ | .block i | .unblock i | .hookU i _ | .promise i _
+  | .release i _ _ | .ret i => some i
+  | _ => none
+
+theorem promisesOf_eq (id : Id) (h : List Ev) : promisesOf id h = h.filterMap (promEv id) := rfl
+theorem hookUsOf_eq (id : Id) (h : List Ev) : hookUsOf id h = h.filterMap (hookUEv id) := rfl
+theorem hookBsOf_eq (id : Id) (h : List Ev) : hookBsOf id h = h.filterMap (hookBEv id) := rfl
+theorem called_eq (id : Id) (h : List Ev) : called id h = h.any (callEv id) := rfl
+theorem kindOf_eq (id : Id) (h : List Ev) : kindOf id h = h.findSome? (kindEv id) := rfl
+theorem sizeOfId_eq (id : Id) (h : List Ev) : sizeOfId h id = (h.findSome? (sizeEv id)).getD 0 := rfl
+theorem admittedIds_eq (h : List Ev) : admittedIds h = h.filterMap admitEv := rfl
+theorem releasedIds_eq (h : List Ev) : releasedIds h = h.filterMap releaseEv := rfl
+
+theorem promisesOf_snoc (id : Id) (h : List Ev) (ev : Ev) :
+    promisesOf id (h ++ [ev]) = promisesOf id h ++ (promEv id ev).toList := by
+  simp only [promisesOf_eq, List.filterMap_append]; cases hh : promEv id ev <;> simp [hh]
+theorem hookUsOf_snoc (id : Id) (h : List Ev) (ev : Ev) :
+    hookUsOf id (h ++ [ev]) = hookUsOf id h ++ (hookUEv id ev).toList := by
+  simp only [hookUsOf_eq, List.filterMap_append]; cases hh : hookUEv id ev <;> simp [hh]
+theorem hookBsOf_snoc (id : Id) (h : List Ev) (ev : Ev) :
+    hookBsOf id (h ++ [ev]) = hookBsOf id h ++ (hookBEv id ev).toList := by
+  simp only [hookBsOf_eq, List.filterMap_append]; cases hh : hookBEv id ev <;> simp [hh]
+theorem called_snoc (id : Id) (h : List Ev) (ev : Ev) :
+    called id (h ++ [ev]) = (called id h || callEv id ev) := by
+  simp [called_eq]
+theorem kindOf_snoc (id : Id) (h : List Ev) (ev : Ev) :
+    kindOf id (h ++ [ev]) = (kindOf id h).or (kindEv id ev) := by
+  simp only [kindOf_eq, List.findSome?_append]; cases hh : kindEv id ev <;> simp [List.findSome?, hh]
+theorem admittedIds_snoc (h : List Ev) (ev : Ev) :
+    admittedIds (h ++ [ev]) = admittedIds h ++ (admitEv ev).toList := by
+  simp only [admittedIds_eq, List.filterMap_append]; cases hh : admitEv ev <;> simp [hh]
+theorem releasedIds_snoc (h : List Ev) (ev : Ev) :
+    releasedIds (h ++ [ev]) = releasedIds h ++ (releaseEv ev).toList := by
+  simp only [releasedIds_eq, List.filterMap_append]; cases hh : releaseEv ev <;> simp [hh]
+
+def szOpt (id : Id) (h : List Ev) : Option Nat := h.findSome? (sizeEv id)
+theorem sizeOfId_eq' (id : Id) (h : List Ev) : sizeOfId h id = (szOpt id h).getD 0 := rfl
+theorem szOpt_snoc (id : Id) (h : List Ev) (ev : Ev) :
+    szOpt id (h ++ [ev]) = (szOpt id h).or (sizeEv id ev) := by
+  simp only [szOpt, List.findSome?_append]; cases hh : sizeEv id ev <;> simp [List.findSome?, hh]
+
+/-! ### the invariant -/
+
+/-- What the monitor's record `r` for `id` says about the history `h`. -/
+structure RecInv (h : List Ev) (id : Id) (r : Rec) : Prop where
+  hid : r.id = id
+  hcalled : called id h = true
+  hkind : kindOf id h = some r.kind
+  hsz : szOpt id h = some r.sz
+  hprom : promisesOf id h = r.promised.toList
+  hU : hookUsOf id h = r.hookU.toList
+  hB : hookBsOf id h = if r.hookB then [()] else []
+  hadm : (admittedIds h).count id = if r.admitted then 1 else 0
+  hrel : (releasedIds h).count id = if r.released then 1 else 0
+  hblk : Ev.block id ∈ h → r.blocked = true ∨ Ev.unblock id ∈ h
+  relAdm : r.released = true → r.admitted = true ∧ r.hookU.isSome = true ∧
+    (r.kind ≠ Kind.sync → r.promised.isSome = true)
+  promU : r.promised.isSome = true → r.hookU = r.promised
+  UB : r.hookU.isSome = true → r.hookB = true
+
+/-- No event of `h` is about `id`. -/
+def NoRec (h : List Ev) (id : Id) : Prop := ∀ ev ∈ h, evId ev ≠ some id
+
+theorem RecInv.frame {h : List Ev} {id : Id} {r : Rec} (hr : RecInv h id r) (ev : Ev)
+    (hev : evId ev ≠ some id) : RecInv (h ++ [ev]) id r := by
+  obtain ⟨h1, h2, h3, h4, h5, h6, h7, h8, h9, h10, h11, h12, h13⟩ := hr
+  have hblk : Ev.block id ∈ h ++ [ev] → r.blocked = true ∨ Ev.unblock id ∈ h ++ [ev] := by
+    intro hb
+    have : Ev.block id ∈ h := by
+      rcases List.mem_append.1 hb with hb | hb
+      · exact hb
+      · simp at hb; subst hb; simp [evId] at hev
+    rcases h10 this with h | h
+    · exact Or.inl h
+    · exact Or.inr (List.mem_append_left _ h)
+  refine ⟨h1, ?_, ?_, ?_, ?_, ?_, ?_, ?_, ?_, hblk, h11, h12, h13⟩
+  all_goals (cases ev <;> simp_all [evId, called_snoc, kindOf_snoc, szOpt_snoc, promisesOf_snoc, hookUsOf_snoc,
+    hookBsOf_snoc, admittedIds_snoc, releasedIds_snoc, promEv, hookUEv, hookBEv, callEv, kindEv, sizeEv, admitEv, releaseEv])
+
+theorem NoRec.frame {h : List Ev} {id : Id} (hn : NoRec h id) (ev : Ev)
+    (hev : evId ev ≠ some id) : NoRec (h ++ [ev]) id := by
+  intro e he
+  rcases List.mem_append.1 he with he | he
+  · exact hn e he
+  · simp at he; subst he; exact hev
 
 end Proof.Producer
